@@ -9,7 +9,9 @@
  *   w <idx> <len>                         digital_rf_write_hdf5
  *   b <len> <k> g0 d0 g1 d1 ...           digital_rf_write_blocks_hdf5
  *   n <idx> <len>                         digital_rf_write_hdf5 with NULL vector
+ *   cid <c>                               payload call number for the next write op
  *   close
+ * script "-" reads ops from stdin and echoes every END line to stdout (interactive sessions)
  *
  * Sample payloads are never read from the script: element e of call c is
  * value(salt, c, e) (splitmix64, see vlib/rfmodel.py for the twin).
@@ -124,7 +126,8 @@ int main(int argc, char **argv)
 		fprintf(stderr, "usage: drf_driver script log\n");
 		return 2;
 	}
-	fp = fopen(argv[1], "r");
+	int interactive = !strcmp(argv[1], "-");
+	fp = interactive ? stdin : fopen(argv[1], "r");
 	if (!fp) { perror("script"); return 2; }
 	logfd = open(argv[2], O_WRONLY | O_CREAT | O_APPEND, 0644);
 	if (logfd < 0) { perror("log"); return 2; }
@@ -183,6 +186,16 @@ int main(int argc, char **argv)
 			free(buf); free(g); free(dd);
 			call++;
 		}
+		else if (!strcmp(op, "cid"))
+		{
+			/* set the payload call number of the next write op */
+			if (fscanf(fp, "%" SCNu64, &call) != 1) { fprintf(stderr, "bad cid\n"); return 2; }
+			snprintf(line, sizeof(line), "END %ld 0 0 |\n", opno);
+			logline(line);
+			if (interactive) { fputs(line, stdout); fflush(stdout); }
+			opno++;
+			continue;
+		}
 		else if (!strcmp(op, "close"))
 		{
 			if (obj)
@@ -191,6 +204,7 @@ int main(int argc, char **argv)
 				obj = NULL;
 				snprintf(line, sizeof(line), "END %ld %d 0 |\n", opno, rc);
 				logline(line);
+				if (interactive) { fputs(line, stdout); fflush(stdout); }
 				opno++;
 				continue;
 			}
@@ -211,6 +225,7 @@ int main(int argc, char **argv)
 		else
 			snprintf(line, sizeof(line), "END %ld %d 0 |\n", opno, rc);
 		logline(line);
+		if (interactive) { fputs(line, stdout); fflush(stdout); }
 		opno++;
 	}
 	if (obj)
